@@ -38,17 +38,23 @@ static GString *mkstr(const char *s) { return g_string_new(s); }
 #include "src/state/bidib_state_free.c"
 /* state registry: contracts of the add functions - a rejected record stays with the caller, an accepted one is owned by the registry */
 unsigned g_init_point, g_init_signal, g_init_periph, g_add_calls; _Bool g_dup;
-static void own_iv(t_bidib_state_initial_value v) { __CPROVER_assert(v.id != NULL && v.value != NULL, "C14.initial_value_registered_with_id_and_value"); }
+/* what the registry owns after the call (at most one record and one initial value per call); released in vp_release_all() the way
+ * bidib_state_free releases the real tables - with CBMC's --memory-leak-check this decides "a rejected (or accepted) record leaves
+ * nothing allocated that is not owned by the board or the registry" */
+static t_bidib_state_initial_value o_iv; static _Bool o_iv_set; static int o_kind; static t_bidib_board_accessory_state o_bacc; static t_bidib_dcc_accessory_state o_dacc;
+static t_bidib_peripheral_state o_per; static t_bidib_segment_state_intern o_seg; static t_bidib_reverser_state o_rev;
+static void own_iv(t_bidib_state_initial_value v) { __CPROVER_assert(v.id != NULL && v.value != NULL, "C14.initial_value_registered_with_id_and_value"); __CPROVER_assert(!o_iv_set, "C14.at_most_one_initial_value_per_record"); o_iv = v; o_iv_set = 1; }
 void bidib_state_add_initial_point_value(t_bidib_state_initial_value v) { own_iv(v); g_init_point++; }
 void bidib_state_add_initial_signal_value(t_bidib_state_initial_value v) { own_iv(v); g_init_signal++; }
 void bidib_state_add_initial_peripheral_value(t_bidib_state_initial_value v) { own_iv(v); g_init_periph++; }
-bool bidib_state_add_board_point_state(t_bidib_board_accessory_state s) { __CPROVER_assert(s.id != NULL, "C14.state_registered_with_an_id"); g_add_calls++; return g_dup; }
-bool bidib_state_add_board_signal_state(t_bidib_board_accessory_state s) { __CPROVER_assert(s.id != NULL, "C14.state_registered_with_an_id"); g_add_calls++; return g_dup; }
-bool bidib_state_add_dcc_point_state(t_bidib_dcc_accessory_state s, t_bidib_dcc_address a) { __CPROVER_assert(s.id != NULL, "C14.state_registered_with_an_id"); g_add_calls++; return g_dup; }
-bool bidib_state_add_dcc_signal_state(t_bidib_dcc_accessory_state s, t_bidib_dcc_address a) { __CPROVER_assert(s.id != NULL, "C14.state_registered_with_an_id"); g_add_calls++; return g_dup; }
-bool bidib_state_add_peripheral_state(t_bidib_peripheral_state s) { __CPROVER_assert(s.id != NULL, "C14.state_registered_with_an_id"); g_add_calls++; return g_dup; }
-bool bidib_state_add_segment_state(t_bidib_segment_state_intern s) { __CPROVER_assert(s.id != NULL, "C14.state_registered_with_an_id"); g_add_calls++; return g_dup; }
-bool bidib_state_add_reverser_state(t_bidib_reverser_state s) { __CPROVER_assert(s.id != NULL, "C14.state_registered_with_an_id"); g_add_calls++; return g_dup; }
+#define VP_ADD(k, slot) { __CPROVER_assert(s.id != NULL, "C14.state_registered_with_an_id"); g_add_calls++; if (!g_dup) { __CPROVER_assert(o_kind == 0, "C14.at_most_one_state_per_record"); slot = s; o_kind = k; } return g_dup; }
+bool bidib_state_add_board_point_state(t_bidib_board_accessory_state s) VP_ADD(1, o_bacc)
+bool bidib_state_add_board_signal_state(t_bidib_board_accessory_state s) VP_ADD(1, o_bacc)
+bool bidib_state_add_dcc_point_state(t_bidib_dcc_accessory_state s, t_bidib_dcc_address a) VP_ADD(2, o_dacc)
+bool bidib_state_add_dcc_signal_state(t_bidib_dcc_accessory_state s, t_bidib_dcc_address a) VP_ADD(2, o_dacc)
+bool bidib_state_add_peripheral_state(t_bidib_peripheral_state s) VP_ADD(3, o_per)
+bool bidib_state_add_segment_state(t_bidib_segment_state_intern s) VP_ADD(4, o_seg)
+bool bidib_state_add_reverser_state(t_bidib_reverser_state s) VP_ADD(5, o_rev)
 static t_bidib_board g_board; _Bool g_board_known;
 unsigned g_lookups;
 t_bidib_board *bidib_state_get_board_ref(const char *board) { g_lookups++; return g_board_known ? &g_board : NULL; }
@@ -65,17 +71,35 @@ static void mkboard(void) {
 	g_board.reversers = g_array_sized_new(FALSE, FALSE, sizeof(t_bidib_reverser_mapping), 4);
 	if (has) {
 		t_bidib_board_accessory_mapping m; m.id = mkstr("p"); m.aspects = g_array_sized_new(FALSE, FALSE, sizeof(t_bidib_aspect), 3);
-		vp_garray_append1(g_board.points_board, &m, sizeof m); vp_garray_append1(g_board.signals_board, &m, sizeof m);
-		t_bidib_peripheral_mapping pm; pm.id = mkstr("p"); pm.aspects = m.aspects; vp_garray_append1(g_board.peripherals, &pm, sizeof pm);
+		vp_garray_append1(g_board.points_board, &m, sizeof m);
+		t_bidib_board_accessory_mapping m2; m2.id = mkstr("p"); m2.aspects = g_array_sized_new(FALSE, FALSE, sizeof(t_bidib_aspect), 3);
+		vp_garray_append1(g_board.signals_board, &m2, sizeof m2);
+		t_bidib_peripheral_mapping pm; pm.id = mkstr("p"); pm.aspects = g_array_sized_new(FALSE, FALSE, sizeof(t_bidib_aspect), 3); vp_garray_append1(g_board.peripherals, &pm, sizeof pm);
 		t_bidib_segment_mapping sm; sm.id = mkstr("p"); vp_garray_append1(g_board.segments, &sm, sizeof sm);
 		t_bidib_dcc_accessory_mapping dm; dm.id = mkstr("p"); dm.aspects = g_array_sized_new(FALSE, FALSE, sizeof(t_bidib_dcc_aspect), 3);
-		vp_garray_append1(g_board.points_dcc, &dm, sizeof dm); vp_garray_append1(g_board.signals_dcc, &dm, sizeof dm);
+		vp_garray_append1(g_board.points_dcc, &dm, sizeof dm);
+		t_bidib_dcc_accessory_mapping dm2; dm2.id = mkstr("p"); dm2.aspects = g_array_sized_new(FALSE, FALSE, sizeof(t_bidib_dcc_aspect), 3);
+		vp_garray_append1(g_board.signals_dcc, &dm2, sizeof dm2);
 		t_bidib_reverser_mapping rm; rm.id = mkstr("p"); rm.cv = mkstr("7"); vp_garray_append1(g_board.reversers, &rm, sizeof rm);
 	}
 }
 
 extern unsigned vp_nested_calls, vp_last_section_type;
+/* release everything the way bidib_state_free does (real free functions): the board with its lists, the registered state and initial value */
+static void vp_release_all(void) {
+#ifdef VP_LEAKCHECK
+	g_board.features = NULL;
+	bidib_state_free_single_board(g_board);
+	if (o_iv_set) bidib_state_free_single_initial_value(o_iv);
+	if (o_kind == 1) bidib_state_free_single_board_accessory_state(o_bacc);
+	if (o_kind == 2) bidib_state_free_single_dcc_accessory_state(o_dacc);
+	if (o_kind == 3) bidib_state_free_single_peripheral_state(o_per);
+	if (o_kind == 4) bidib_state_free_single_segment_state_intern(o_seg);
+	if (o_kind == 5) bidib_state_free_single_reverser_state(o_rev);
+#endif
+}
 void vp_harness(void) {
+	o_iv_set = 0; o_kind = 0;
 	vp_live = 0; vp_parsed = 0; vp_scalars = 0; vp_nested_calls = 0;
 #if defined(VP_H_ASPECT)
 	/* list with 0 or 1 earlier aspect (arbitrary value) */
@@ -144,6 +168,7 @@ void vp_harness(void) {
 #else
 	for (guint k = 0; k < 2; k++) if (k < mine->len) { t_bidib_dcc_accessory_mapping *e = &g_array_index(mine, t_bidib_dcc_accessory_mapping, k); __CPROVER_assert(e->aspects != NULL, "C13.accessory.every_listed_mapping_has_an_aspect_list (bidib_state_free_single_board reads its length)"); }
 #endif
+	vp_release_all();
 #elif defined(VP_H_PERIPHERAL) || defined(VP_H_SEGMENT) || defined(VP_H_REVERSER)
 	mkboard(); VP_IN(_Bool, g_dup); g_init_point = g_init_signal = g_init_periph = g_add_calls = 0;
 #if defined(VP_H_PERIPHERAL)
@@ -161,6 +186,7 @@ void vp_harness(void) {
 	VP_COVER_LONG(!err); VP_COVER(err && vp_parsed == 1 && before == 1); VP_COVER_LONG(err && g_dup && g_add_calls == 1);
 	VP_LEDGER_AT_RETURN();
 	if (!err) __CPROVER_assert(mine->len == before + 1 && g_add_calls == 1 && !g_dup, "C14.section.accepted_entry_has_one_mapping_and_one_registered_state");
+	vp_release_all();
 #elif defined(VP_H_BOARD_SETUP)
 	mkboard(); VP_IN(_Bool, g_board_known); g_lookups = 0;
 	bool err = bidib_config_parse_single_board_setup(&g_parser);
